@@ -508,6 +508,16 @@ func Spawn(label string, f func(), args ...any) {
 	go f()
 }
 
+// SubmitTask stands for a worker-pool submission (`pool.Submit(f)`) in
+// instrumented code: under the explorer the submitted function becomes a
+// task, so that the explorer decides when the worker runs relative to its
+// submitter; when running free it is a plain goroutine.
+func SubmitTask(label string, f func()) error {
+	Spawn(label, f)
+
+	return nil
+}
+
 // Choose asks the explorer for an environment answer, 0 when running free.
 func Choose(n int, label string) int {
 	if s := Cur(); s != nil {
